@@ -986,3 +986,58 @@ func checkCtxResultSelectsPoll(c *Ctx) {
 		c.anchorMissing("selects on a context and a result channel")
 	}
 }
+
+// checkHeaderWritersCovered (C01-R4): the rules about the wire id (rewrite at the framing's id offset, restore on every
+// returning path) are written against a list of functions. This obligation closes the list: every call of
+// binary.BigEndian.PutUint16 in the upstream packages lies in one of those functions (or their closures), in a framing
+// constructor, or in a NEW helper reached only from them — a new place that writes a 16-bit header field into a query
+// or reply is reported instead of silently escaping the id rules.
+var headerWriterFuncs = map[string]string{
+	"(*pkg/upstream/transport.TraditionalDnsConn).exchange":         "restores the caller's id (C01-R5/R8)",
+	"(*pkg/upstream/transport.TraditionalDnsConn).writeQuery":       "writes the registered wire id at the framing's offset (C01-R4)",
+	"(*pkg/upstream/transport.reusableConn).exchange":               "wire id per connection and restore (C01-R12)",
+	"(*pkg/upstream/transport.quicReservedExchanger).ExchangeReserved": "id 0 on the wire and restore (C01-R5)",
+	"(*pkg/upstream/doh.Upstream).ExchangeContext":                  "restore (C01-R5)",
+	"pkg/upstream/transport.copyMsgWithLenHdr":                      "framing constructor: the length header (C16-W2)",
+}
+
+func checkHeaderWritersCovered(c *Ctx) {
+	n := 0
+	for _, f := range c.P.funcsIn(relTransport, relDoh, relUpstream, relBootstrap()) {
+		fn := f
+		eachInstr(f, func(in ssa.Instruction) {
+			pc, ok := in.(*ssa.Call)
+			if !ok || callName(pc) != binPut16 {
+				return
+			}
+			n++
+			top := fn
+			for top.Parent() != nil {
+				top = top.Parent()
+			}
+			name := funcName(top)
+			_, covered := headerWriterFuncs[name]
+			if !covered && isNewHelper(top) {
+				// a NEW helper all of whose call sites lie in covered functions (e.g. the poll-and-restore helper)
+				sites, asValue := callSitesOf(top)
+				covered = !asValue && len(sites) > 0
+				for _, st := range sites {
+					r := st.Parent()
+					for r.Parent() != nil {
+						r = r.Parent()
+					}
+					if _, ok := headerWriterFuncs[funcName(r)]; !ok {
+						covered = false
+					}
+				}
+			}
+			c.check(covered, "header-writer-covered@"+name, instrPos(in), "the 16-bit header write lies in a function the id / framing rules are written against",
+				"a 16-bit header field is written in "+name+", which none of the wire-id rules (C01-R4/R5/R8/R12) or framing rules covers: an id rewrite or restore outside the checked functions escapes them (add the function to headerWriterFuncs together with the rule that covers it)")
+		})
+	}
+	if n == 0 {
+		c.anchorMissing("PutUint16 calls in the upstream packages")
+	}
+}
+
+func relBootstrap() string { return "pkg/upstream/bootstrap" }
